@@ -25,6 +25,7 @@ props! {
     "C02" => c02,
     "C03" => c03,
     "C04" => c04,
+    "C05" => c05,
     "C06" => c06,
     "C07" => c07,
     "C08" => c08,
@@ -44,6 +45,7 @@ pub fn worker(prop: &str, args: &[String]) -> i32 {
     install_panic_hook();
     let Some(w) = WorkerArgs::parse(args) else { return 2 };
     match prop {
+        "C05" => c05::worker(&w),
         "C06" => c06::worker(&w),
         "C07" => c07::worker(&w),
         _ => 2,
